@@ -1,6 +1,7 @@
 package main
 
 import (
+	"bytes"
 	"encoding/json"
 	"fmt"
 	"log/slog"
@@ -267,6 +268,98 @@ func execQueueVeryLong(c *child.Ctx, k queueCase, cj []byte) {
 	c.Count("very_long_run_snapshots_compared", int64(snaps))
 }
 
+// execQueuesSideBySide: several queues in one process (the proxy keeps one, a program
+// may keep more), each used by a goroutine of its own that adds, takes a snapshot and
+// compares it exactly - queues share nothing that their users can see.
+func execQueuesSideBySide(c *child.Ctx, k queueCase, cj []byte) {
+	var wg sync.WaitGroup
+	var bad atomic.Value
+	start := make(chan struct{})
+	for qi := 0; qi < k.Adders; qi++ {
+		wg.Add(1)
+		go func(qi int) {
+			defer wg.Done()
+			capN := k.Cap + qi%2
+			q := circularQueue.NewCircularQueue(capN)
+			<-start
+			for i := 1; i <= k.Adds && bad.Load() == nil; i++ {
+				q.Add(qmsg(qi*1000000 + i - 1))
+				got := q.GetMessages()
+				want := capN
+				if i < want {
+					want = i
+				}
+				ok := len(got) == want
+				for j := 0; ok && j < len(got); j++ {
+					if qid(got[j]) != qi*1000000+i-want+j || !sameMsg(got[j]) {
+						ok = false
+					}
+				}
+				if !ok {
+					bad.Store(fmt.Sprintf("queue %d of %d used side by side (capacity %d) after %d additions of its own: snapshot %v, expected its last %d messages in order", qi+1, k.Adders, capN, i, ids(got), want))
+					return
+				}
+				if n := sizeUnderLock(q); n > capN {
+					bad.Store(fmt.Sprintf("queue %d of %d used side by side holds %d items, capacity %d", qi+1, k.Adders, n, capN))
+					return
+				}
+				if i%256 == 0 {
+					tick()
+				}
+			}
+		}(qi)
+	}
+	done := make(chan struct{})
+	go func() { close(start); wg.Wait(); close(done) }()
+	waitOrHang(done, caseWatchdog, "queues used side by side did not finish")
+	if v := bad.Load(); v != nil {
+		c.Violate("snapshot-wrong", v.(string)+alteredText(), cj)
+		return
+	}
+	c.Count("additions_to_queues_used_side_by_side", int64(k.Adders*k.Adds))
+}
+
+// execQueueBigBlocks: messages whose raw bytes are small windows into one large read
+// buffer (so that each keeps megabytes alive), and messages that are large themselves.
+func execQueueBigBlocks(c *child.Ctx, k queueCase, cj []byte) {
+	q := circularQueue.NewCircularQueue(k.Cap)
+	var block []byte
+	var added [][]byte
+	for i := 1; i <= k.Adds; i++ {
+		if i%3 == 1 {
+			block = make([]byte, k.OpsEach) // a new read buffer of OpsEach bytes
+		}
+		off := (i * 4099) % (len(block) - 64)
+		raw := block[off : off+16+i%32]
+		raw[0], raw[1], raw[2] = 0xd3, byte(i), byte(i>>8)
+		added = append(added, raw)
+		q.Add(handler.Message{MessageType: 1005, Timestamp: uint(i), RawData: raw})
+		got := q.GetMessages()
+		want := k.Cap
+		if i < want {
+			want = i
+		}
+		ok := len(got) == want
+		for j := 0; ok && j < len(got); j++ {
+			if int(got[j].Timestamp) != i-want+j+1 || !bytes.Equal(got[j].RawData, added[i-want+j]) {
+				ok = false
+			}
+		}
+		if !ok {
+			var have []int
+			for _, m := range got {
+				have = append(have, int(m.Timestamp))
+			}
+			c.Violate("snapshot-wrong", fmt.Sprintf("capacity %d after %d additions of messages that are windows of 16-48 bytes into read buffers of %d bytes: the snapshot holds messages %v, expected the last %d", k.Cap, i, k.OpsEach, have, want), cj)
+			return
+		}
+		if len(added) > 2*k.Cap+4 {
+			added[i-2*k.Cap-4] = nil
+		}
+	}
+	c.Count("additions_of_windows_into_big_buffers", int64(k.Adds))
+}
+
 // concurrent histories, checked for linearizability against the list model
 type qIn struct {
 	Add bool
@@ -530,6 +623,12 @@ func monC18(c *child.Ctx, replay json.RawMessage) {
 			execQueueHeldLock(c, k, replay)
 		case "verylong":
 			execQueueVeryLong(c, k, replay)
+		case "sidebyside":
+			for i := 0; i < 10 && c.NViolations() == 0; i++ {
+				execQueuesSideBySide(c, k, replay)
+			}
+		case "bigblocks":
+			execQueueBigBlocks(c, k, replay)
 		case "stress":
 			for i := 0; i < 20 && c.NViolations() == 0; i++ {
 				execQueueStress(c, k, replay)
@@ -612,6 +711,20 @@ func monC18(c *child.Ctx, replay json.RawMessage) {
 		if !runInPlainProcess(c, cj, fmt.Sprintf("a run of %d additions to a queue of capacity %d", k.Adds, k.Cap)) {
 			execQueueVeryLong(c, k, cj)
 		}
+		c.Eval(ref.Hash64(cj), true)
+	}
+	// (2c) several queues at the same time, one goroutine each
+	for i := 0; i < c.Pick(3, 12); i++ {
+		k := queueCase{Kind: "sidebyside", Cap: []int{1, 3, 8, 20}[r.Intn(4)], Adders: r.Range(2, 6), Adds: c.Pick(3000, 20000)}
+		cj := c.BeginV(k)
+		execQueuesSideBySide(c, k, cj)
+		c.Eval(ref.Hash64(cj, []byte{byte(i)}), true)
+	}
+	// (2d) small messages that pin large buffers, 8 MiB to 48 MiB each
+	if c.Batch%2 == 0 {
+		k := queueCase{Kind: "bigblocks", Cap: []int{4, 8, 20}[r.Intn(3)], Adds: 60, OpsEach: []int{8 << 20, 24 << 20, 48 << 20}[r.Intn(3)]}
+		cj := c.BeginV(k)
+		execQueueBigBlocks(c, k, cj)
 		c.Eval(ref.Hash64(cj), true)
 	}
 	// (2b) a reader that holds the queue's (exported) read lock for a while - a report
